@@ -1,5 +1,5 @@
 """Property id -> check function."""
-from . import props_act, props_cache, props_det, props_filter, props_glr, props_lex, props_life, props_lr, props_prec, props_str, props_sugar, props_tbl
+from . import props_act, props_cache, props_det, props_filter, props_glr, props_imp, props_lex, props_life, props_lr, props_prec, props_str, props_sugar, props_tbl
 
 CHECKS = {
     "C01": props_glr.c01,
@@ -19,4 +19,5 @@ CHECKS = {
     "C16": props_det.c16,
     "C18": props_filter.c18,
     "C19": props_str.c19,
+    "C20": props_imp.c20,
 }
